@@ -246,7 +246,8 @@ class Check:
             return
         rdir = os.path.join(VERIF, 'replays', self.pid)
         os.makedirs(rdir, exist_ok=True)
-        path = os.path.join(rdir, f'{self.tier}-{len(self.violations):03d}.json')
+        tag = '' if REPO == '/repo' else f'mut{os.getpid()}-'
+        path = os.path.join(rdir, f'{tag}{self.tier}-{len(self.violations):03d}.json')
         doc = {'property': self.pid, 'what': what, 'repo': repo_state(), 'tier': self.tier,
                'seed': self.seed, 'replay': replay,
                'command': f'./check {self.pid} --replay {path}'}
@@ -283,8 +284,9 @@ class Check:
         doc = {'property_id': self.pid, 'tier': self.tier, 'seed': int(self.seed), 'level': self.level,
                'coverage': cov, 'assumptions': self.assumptions,
                'wall_s': round(time.time() - self.t0, 2), 'violations': nviol}
-        os.makedirs(os.path.join(VERIF, 'evidence'), exist_ok=True)
-        with open(os.path.join(VERIF, 'evidence', f'{self.pid}.json'), 'w', encoding='utf-8') as fil:
+        evdir = os.path.join(VERIF, 'evidence') if REPO == '/repo' else subdir('evidence-other-repo')
+        os.makedirs(evdir, exist_ok=True)
+        with open(os.path.join(evdir, f'{self.pid}.json'), 'w', encoding='utf-8') as fil:
             json.dump(doc, fil, indent=1, default=str)
         print(f'[{self.pid}] tier={self.tier} states={self.states} transitions={self.transitions} '
               f'traces={self.traces} evaluations={self.evaluations} distinct={len(self.distinct)} '
